@@ -74,5 +74,14 @@ CHECKS["C20"] = dict(level="model_checking", design_ref="DESIGN.md 5/C20",
          "symbolic pass-through attribute values so any dropped or misplaced field is a sat; regularity, degree bounds, hash/eq and jit "
          "round trips are closed computations per size.",
     note="Trusted: z3 LIA; jnp.array in lattices.py treated as a container under PX. Sizes: chains 2..8, 2D sides 2..4, cubic 2..3 (quick).")
-for k in ("C01","C02","C03","C04","C09","C15","C19","C20"): NA.pop(k, None)
+CHECKS["C07"] = dict(level="model_checking", design_ref="DESIGN.md 5/C07",
+    technique="symbolic execution (jaxpr for the jitted variants, real NumPy/MPI code on symbolic reals for the others) with z3-decided path splits; z3 real arithmetic per path",
+    text="All five sr.py implementations and the two propagator-level entry points are executed on symbolic weights and comb offset; each "
+         "comb index forces a solver-decided path split, so every feasible path has concrete output tags; on every path: copies only, equal "
+         "new weights sum|w|/N, conservation, floor/ceil counts, zero-weight never selected, up/down copied together, and the functional "
+         "specification cum_{i-1} < W(k+zeta)/N <= cum_i, which determines the output uniquely (hence all implementations agree) and with "
+         "the z3-proved interval lemma gives the exact expectation over the offset. MPI: R ranks as threads around a rank-ordered "
+         "Gather/Scatter model, every arrival order enumerated.",
+    note="Trusted: z3; exact reals for floats; the in-process communicator model; PRNG offset opaque in [0,1). N <= 3 (4 thorough), R <= 3.")
+for k in ("C01","C02","C03","C04","C07","C09","C15","C19","C20"): NA.pop(k, None)
 ENGINES[0]["serves_properties"] = sorted(CHECKS)
